@@ -11,6 +11,24 @@ use std::time::Instant;
 
 pub const VERIF_DIR: &str = "/verif";
 pub const DEFAULT_SEED: u64 = 20261004;
+/// seed of the current run (enumerated parts derive their per-index entropy from it)
+pub static SEED: std::sync::atomic::AtomicU64 = std::sync::atomic::AtomicU64::new(DEFAULT_SEED);
+
+pub fn run_seed() -> u64 {
+    SEED.load(std::sync::atomic::Ordering::Relaxed)
+}
+
+/// deterministic entropy for index `i` of an enumerated part
+pub fn derived_entropy(tag: u64, i: u64, len: usize) -> Vec<u64> {
+    let mut h = splitmix(run_seed() ^ tag.wrapping_mul(0xA24BAED4963EE407));
+    h = splitmix(h ^ i.wrapping_mul(0x9FB21C651E98DF25));
+    (0..len)
+        .map(|_| {
+            h = splitmix(h);
+            h
+        })
+        .collect()
+}
 
 #[derive(Clone, Copy, Debug, PartialEq, Eq)]
 pub enum Tier {
@@ -515,7 +533,7 @@ pub fn drive(check: &dyn Check, tier: Tier, seed: u64, threads: usize, known: &K
             let mut obs = Obs { want_desc: true, ..Obs::default() };
             let _ = guarded_enum(check, i, tier, &mut obs);
             violation = Some(Violation {
-                replay: json!({"property": id, "kind": "enum", "index": i, "tier": tier.name(),
+                replay: json!({"property": id, "kind": "enum", "index": i, "tier": tier.name(), "seed": seed,
                     "signature": f.sig, "message": f.msg, "case": obs.desc}),
                 fail: f,
             });
@@ -612,7 +630,7 @@ pub fn drive(check: &dyn Check, tier: Tier, seed: u64, threads: usize, known: &K
                     let mut obs = Obs { want_desc: true, ..Obs::default() };
                     let _ = guarded_case(check, &data, &mut obs);
                     violation = Some(Violation {
-                        replay: json!({"property": id, "kind": "entropy", "entropy": data, "tier": tier.name(),
+                        replay: json!({"property": id, "kind": "entropy", "entropy": data, "tier": tier.name(), "seed": seed,
                             "signature": f.sig, "message": f.msg, "case": obs.desc}),
                         fail: f,
                     });
@@ -626,6 +644,9 @@ pub fn drive(check: &dyn Check, tier: Tier, seed: u64, threads: usize, known: &K
 /// Replay one saved case through the same check function, bypassing proptest.
 pub fn replay(check: &dyn Check, file: &Value) -> Result<(), Fail> {
     let tier = if file["tier"] == "thorough" { Tier::Thorough } else { Tier::Quick };
+    if let Some(s) = file["seed"].as_u64() {
+        SEED.store(s, std::sync::atomic::Ordering::Relaxed);
+    }
     let mut obs = Obs::default();
     match file["kind"].as_str() {
         Some("enum") => {
